@@ -101,13 +101,56 @@ def _has_internal(t):
     return False
 
 
+def unintern(t):
+    """rewrite z3's internal seq.nth_i / seq.nth_u back to the public seq.nth (they denote the same
+    value wherever the simplifier places them)"""
+    memo = {}
+
+    def go(x):
+        k = x.get_id()
+        if k in memo:
+            return memo[k][1]
+        if z3.is_quantifier(x):
+            body = go(x.body())
+            if body.eq(x.body()):
+                r = x
+            else:
+                vs = [z3.Const(x.var_name(i), x.var_sort(i)) for i in range(x.num_vars())]
+                # rebuild with fresh constants for the bound variables (innermost var has index 0)
+                inst = z3.substitute_vars(body, *reversed(vs))
+                r = z3.ForAll(vs, inst) if x.is_forall() else z3.Exists(vs, inst)
+        elif z3.is_app(x) and x.num_args() > 0:
+            kids = [go(c) for c in x.children()]
+            name = x.decl().name()
+            if name in ("seq.nth_i", "seq.nth_u"):
+                r = kids[0][kids[1]]
+            elif x.decl().kind() == z3.Z3_OP_ITE and kids[1].eq(kids[2]):
+                r = kids[1]
+            elif all(a.eq(b) for a, b in zip(kids, x.children())):
+                r = x
+            else:
+                try:
+                    r = x.decl()(*kids)
+                except Exception:
+                    r = z3.substitute(x, *[(o, n) for o, n in zip(x.children(), kids) if not o.eq(n)])
+        else:
+            r = x
+        memo[k] = (x, r)
+        return r
+
+    return go(t)
+
+
 def simp(t):
-    """simplify, but never return a term containing internal sequence accessors"""
+    """simplify; internal sequence accessors introduced by the simplifier are rewritten back"""
     s = z3.simplify(t)
     if z3.is_true(s) or z3.is_false(s) or z3.is_int_value(s) or z3.is_string_value(s):
         return s
     if _has_internal(s):
-        return t
+        try:
+            return unintern(s)
+        except Exception:
+            return t
     return s
 
 
